@@ -6,6 +6,9 @@ CONSTANTS
   Vias <- ViasAll
   MaxInject = 1
   Spoof = TRUE
+  Confs <- ConfsSw
+  Stores <- StoresNone
+  Ancs <- AncsTs
   RestoreAtTop = TRUE
 CONSTRAINTS GenDeep
 INVARIANTS ReplyIffValid ExactlyOne ToSender ReplyHeader NeverAnswersReply BoundedTraffic HistoryIndependence
